@@ -110,6 +110,9 @@ func importSTL(path string) (r result) {
 
 // run one file through both entry points with a watchdog; key prefix identifies the alphabet part.
 func (w *worker) one(c *vlib.Ctx, path string, content []byte, desc map[string]any, class string, measure bool) (r result) {
+	if w.hung[class] {
+		return // a call of this class is still blocked inside the loader: one report per class, no further 60 s waits
+	}
 	if err := os.WriteFile(path, content, 0o644); err != nil {
 		c.HarnessError("cannot write scratch file: %v", err)
 		return
@@ -129,6 +132,10 @@ func (w *worker) one(c *vlib.Ctx, path string, content []byte, desc map[string]a
 	case r = <-done:
 	case <-time.After(60 * time.Second):
 		c.Violation("LoadSTL|did-not-return-within-60s|"+class, "LoadSTL did not return within 60 s on a file of "+fmt.Sprint(len(content))+" bytes", desc)
+		if w.hung == nil {
+			w.hung = map[string]bool{}
+		}
+		w.hung[class] = true
 		return
 	}
 	_ = t0
@@ -176,6 +183,7 @@ func (w *worker) one(c *vlib.Ctx, path string, content []byte, desc map[string]a
 type worker struct {
 	outcomes *vlib.Counter
 	maxAlloc uint64
+	hung     map[string]bool
 }
 
 var alphabet = []string{
@@ -337,6 +345,38 @@ func workerMain() {
 	long2 := []byte(pad + strings.Repeat("vertex 1 2 3\n", 30000))
 	w.one(c, filepath.Join(work, "bin.stl"), long2, map[string]any{"kind": "30000-vertex-lines"}, "many-lines", true)
 	states += 2
+
+	// a malformed number / a stray line / a surplus vertex followed by many more vertex lines (round 8): a loader that
+	// hands lines to a second goroutine must not block on its queue once the consumer has given up
+	for _, after := range []int{1, 255, 1023, 1024, 1025, 1026, 4097, 20000} {
+		for _, bad := range []string{"vertex 1 x 3\n", "vertex 1e999x 0 0\n", "vertex 1 2\n", "vertex 4 5 6\n"} {
+			for _, before := range []int{0, 3, 1500} {
+				f := []byte(pad + strings.Repeat("vertex 1 2 3\n", before) + bad + strings.Repeat("vertex 7 8 9\n", after))
+				w.one(c, filepath.Join(work, "bin.stl"), f, map[string]any{"kind": "odd-line-then-many-vertex-lines", "vertex_lines_before": before, "odd_line": bad, "vertex_lines_after": after}, "odd-line-then-many-lines", true)
+				states++
+				trans += 2
+			}
+		}
+	}
+	// history (round 8): small and malformed files loaded right after a large ASCII model - what a load allocates is in
+	// proportion to ITS file, not to the file before it
+	{
+		big := []byte(pad + strings.Repeat("vertex 1 2 3\n", 150000))
+		smalls := map[string][]byte{
+			"one-facet":        []byte("solid s\nfacet normal 0 0 1\nouter loop\nvertex 0 0 0\nvertex 1 0 0\nvertex 0 1 0\nendloop\nendfacet\nendsolid s\n" + pad),
+			"garbage":          []byte(strings.Repeat("\x00\xff\x10garbage", 20)),
+			"truncated-binary": append(append(make([]byte, 80), 5, 0, 0, 0), make([]byte, 120)...),
+			"bad-number":       []byte(pad + "vertex 1 2 3\nvertex 1 x 3\nvertex 1 2 3\n"),
+			"empty":            {},
+		}
+		names := []string{"one-facet", "garbage", "truncated-binary", "bad-number", "empty"}
+		for _, n := range names {
+			w.one(c, filepath.Join(work, "bin.stl"), big, map[string]any{"kind": "150000-vertex-lines"}, "many-lines", true)
+			w.one(c, filepath.Join(work, "bin.stl"), smalls[n], map[string]any{"kind": "small-file-after-a-large-ascii-file", "file": n}, "small-after-large", true)
+			states += 2
+			trans += 4
+		}
+	}
 
 	// ---- (e) line endings: a well-formed ASCII file of 120 facets with LF, CR LF and LF CR LF mixed endings, shifted
 	// by 0..255 leading blanks so that every alignment of a line end against the reader's refill boundaries
